@@ -245,6 +245,7 @@ package primitive
 //@   ensures inmem: inmemory(source) && p0 + 4 <= avail(source) && (int32(rbe4(source, p0)) <= 0 || p0 + 4 + int(int32(rbe4(source, p0))) <= avail(source)) ==> result1 == nil
 //@   ensures length: result1 == nil && int32(rbe4(source, p0)) >= 0 ==> len(result0) == int(int32(rbe4(source, p0))) && pos(source) == p0 + 4 + len(result0)
 //@   ensures content: result1 == nil && int32(rbe4(source, p0)) >= 0 ==> forall k int :: 0 <= k && k < len(result0) ==> result0[k] == rbyte(source, p0 + 4 + k)
+//@   ensures negative: result1 == nil && int32(rbe4(source, p0)) < 0 ==> len(result0) == 0 && pos(source) == p0 + 4
 // [bytes]: an [int] n followed by n bytes, n < 0 for null; [short bytes]: a [short] n followed by n bytes
 //@ func WriteBytes
 //@   prop C03, C02
